@@ -312,14 +312,23 @@ func init() {
 			"distinct_nontrivial = distinct (handler, gRPC answer class) pairs observed",
 		Assumptions: []string{"requests reach the handlers as Go messages decoded from wire bytes (no gRPC transport)", "the in-flight request of a batch is written to work/C12/inflight-<case>.txt before each call, so a fatal runtime error still leaves the input"},
 		DistinctSet: "answer", CaseTimeout: 600e9,
-		Floors: map[string]int64{"requests": 5000, "set_requests_accepted": 50, "requests_wire_mutated": 500},
+		Floors: map[string]int64{"requests": 5000, "set_requests_accepted": 50, "requests_wire_mutated": 500, "fuzz_executions": 20000},
 		Cases: func(tier string) int {
 			if tier == "thorough" {
-				return 5000
+				return 5000 + 1
 			}
-			return 120
+			return 120 + 1
 		},
 		Run: func(c *fw.Case) {
+			// the last case is the coverage-guided stage (Go native fuzzing over the same handlers)
+			if c.Tier == "thorough" && c.Index == 5000 {
+				c12Fuzz(c, 600000)
+				return
+			}
+			if c.Tier != "thorough" && c.Index == 120 {
+				c12Fuzz(c, 25000)
+				return
+			}
 			dir := os.Getenv("VERIF_WORK")
 			if dir == "" {
 				dir = os.TempDir()
